@@ -226,7 +226,11 @@ def cmp_case(rng):
 def cmp_fails(case):
     x, y = UTPM(np.array(case['x'])), UTPM(np.array(case['y']))
     f = CMP[case['cmp']]
-    if case['mode'] == 'scalar':
+    if case['mode'] == 'self':
+        # the polynomial compared with ITSELF (the same object: the usual NaN test `x == x`)
+        got = bool(f(x, x))
+        want = bool(np.all(f(x.data[0], x.data[0])))
+    elif case['mode'] == 'scalar':
         got = bool(f(x, case['scalar']))
         want = bool(np.all(f(x.data[0], case['scalar'])))
     elif case['mode'] == 'rank':
@@ -424,6 +428,20 @@ def run(ctx):
                 case = {'op': 'cmp', 'cmp': cmpn, 'mode': 'scalar' if where == 'scalar-x' else 'special', 'D': D, 'P': P, 'x': x, 'y': y, 'scalar': 0.0}
                 ctx.evaluations += 1
                 ctx.count('cmp-special')
+                f = cmp_fails(case)
+                if f:
+                    ctx.report(case, 'failure', f)
+    # every comparison of a polynomial with itself (the same object), with and without a special value in the zeroth coefficient
+    for cmpn in sorted(CMP):
+        for special in (None, float('nan'), float('inf'), float('-inf')):
+            for shp in ((), (3,), (2, 2)):
+                D, P = ctx.rng.randint(1, 3), ctx.rng.randint(1, 2)
+                x = np.round(rand_coeffs(ctx.rng, (D, P) + shp, -1, 1) * 2) / 2
+                if special is not None:
+                    x[0].reshape(-1)[-1] = special
+                case = {'op': 'cmp', 'cmp': cmpn, 'mode': 'self', 'D': D, 'P': P, 'x': x, 'y': x, 'scalar': 0.0}
+                ctx.evaluations += 1
+                ctx.count('cmp-self')
                 f = cmp_fails(case)
                 if f:
                     ctx.report(case, 'failure', f)
